@@ -139,14 +139,16 @@ theorem Select32_loop (fuel : Nat) (ws : List Nat) (sidx : List Int) (i : Int)
     * `ws.length < 2^25` (the project's `BmDom`): `wordI<<6`, `a += wordI<<6`, `wordI<<6 + tz`, `l<<6` stay below
       `2^31` (no int32 wrap).
     * `sidx.length < 2^31`: `int32(len(selectIndex))` does not wrap in the range test.
-    * `sidx` entries `< 2^31` and `i < 2^31`: non-negative `int32` values (the lists are given as `Nat`s; a negative
-      `i` panics in Go).
-    * no hypothesis on the words.
+    * `i` and the entries of `sidx` are non-negative `int32` values, given as `Nat`s (a negative `i` panics in Go).
+      That they are `< 2^31` is NOT needed for the equation: they only go through `>>`, `& 31`, `& 63` and
+      comparisons, which are exact on every non-negative integer, and an entry `≥ 2^31` makes `words[base>>6]` out
+      of range on both sides.
+    * no hypothesis on the words (`findIth < 32` keeps every subtraction non-negative).
     Fuel: every `fuel ≥ len(words) + 1`.
     Panics (`none` on both sides): the explicit `panic("i outof range")` when `i>>5 >= len(selectIndex)`;
     `words[base>>6]` and `words[wordI]` (skip loop running off the end) out of range; a `select8Lookup` index ≥ 2048. -/
 theorem Tie_bitmap_Select32 (ws sidx : List Nat) (i fuel : Nat)
-    (hlen : ws.length < 2 ^ 25) (hsl : sidx.length < 2 ^ 31) (hs : ∀ n ∈ sidx, n < 2 ^ 31) (hi : i < 2 ^ 31)
+    (hlen : ws.length < 2 ^ 25) (hsl : sidx.length < 2 ^ 31)
     (hfuel : ws.length + 1 ≤ fuel) :
     Gen.Ssa2.bitmap_Select32 fuel ws (sidx.map Int.ofNat) (i : Int)
       = (select32 ws sidx i).map (fun p => ((p.1 : Int), (p.2 : Int))) := by
@@ -165,8 +167,6 @@ theorem Tie_bitmap_Select32 (ws sidx : List Nat) (i fuel : Nat)
     cases hsi : sidx[i / 32]? with
     | none => simp
     | some s =>
-      have hs31 : s < 2 ^ 31 := hs s (List.mem_of_getElem? hsi)
-      simp only [Nat.reducePow] at hs31
       simp only [Option.map_some, Option.bind_some, Int.ofNat_eq_natCast, shrI32_6_ofNat, index_ofNat]
       cases hw : ws[s / 64]? with
       | none => simp
@@ -180,5 +180,6 @@ theorem Tie_bitmap_Select32 (ws sidx : List Nat) (i fuel : Nat)
 example : Gen.Ssa2.bitmap_Select32 4 [0x12, 0, 0x100] [1] 1 = some (4, 136) := by decide +kernel
 example : select32 [0x12, 0, 0x100] [1] 1 = some (4, 136) := by decide +kernel
 example : Gen.Ssa2.bitmap_Select32 4 [0x12, 0, 0x100] [1] 2 = some (136, 192) := by decide +kernel
+example : Gen.Ssa2.bitmap_Select32 4 [0x12, 0, 0x100] [1] 3 = none ∧ select32 [0x12, 0, 0x100] [1] 3 = none := by decide +kernel
 
 end Low
